@@ -2341,6 +2341,12 @@ func buildAckRanges(entries []*shareAckState, gaps []shareAckRange) (ranges []sh
 		if t == int8(AckRenew) {
 			hasRenew = true
 		}
+		// Gaps below this entry go first: the wire requires the batches
+		// of a partition in ascending offset order.
+		for len(gaps) > 0 && gaps[0].firstOffset < e.offset {
+			ranges = coalesceAppendRange(ranges, gaps[0])
+			gaps = gaps[1:]
+		}
 		ranges = coalesceAppendRange(ranges, shareAckRange{
 			firstOffset:  e.offset,
 			lastOffset:   e.offset,
